@@ -7,7 +7,7 @@ tvars == <<vars, tid, l>>
 E == Traces[tid][l]
 H == Traces[tid][1]
 TInit == /\ tid \in 1..NTraces /\ l = 2
-         /\ n = H.n /\ nb = H.nb /\ pre = H.pre /\ todo = Skip(Full(H.n, H.nb), H.pre) /\ done = H.pre /\ requested = <<>>
+         /\ n = H.n /\ nb = H.nb /\ pre = H.pre /\ todo = Skip(Full(H.n, H.nb), Kept(H.n, H.pre)) /\ done = Kept(H.n, H.pre) /\ requested = <<>>
 TNext == /\ l <= Len(Traces[tid])
          /\ \/ /\ E.ev = "request" /\ Batch
                /\ ((E.deflated # done) => PropFail(tid, l, "the eigenpairs found so far are not all deflated before the next request"))
